@@ -242,7 +242,7 @@ func unmodifiedSomewhere(root *rootSpec, masks []uint64) bool {
 // drawCase draws writer options, mutator configuration and history size.
 func drawCase(r *rng.R, small bool) (wopts, *recgen.Cfg, genParams) {
 	o := genOpts(r)
-	cfg := &recgen.Cfg{DictResets: o.dictSize != 0 || o.flags&pkg.RestartDictionaries != 0, NoFrozen: r.Chance(1, 3), GenSafe: true}
+	cfg := &recgen.Cfg{DictResets: o.dictSize != 0 || o.flags&pkg.RestartDictionaries != 0, NoFrozen: r.Chance(1, 3)}
 	p := genParams{writes: 2 + r.Intn(10), maxMut: 3, flushProb: r.Intn(6)}
 	switch r.Intn(10) {
 	case 0:
